@@ -420,9 +420,9 @@ func genC01(o *hx.Out, r *hx.Rng, tier string, replay string) error {
 		return c01Step{Kind: "result", Edits: edits, Name: "X", Iters: 1, vals: []c01Val{{Value: 1e-9, Unit: "sec/op", OrigValue: 1, OrigUnit: "ns/op"}}}
 	}
 	directed := [][]c01Step{
-		{one(kv("setfile", "k", "v")), one(kv("flip", "k", ""))},                             // file -> internal
-		{one(kv("setfile", "k", "v")), one(kv("set", "k", "v"))},                             // SetConfig on a file key
-		{one(kv("set", "k", "v")), one(kv("flip", "k", ""))},                                 // internal -> file
+		{one(kv("setfile", "k", "v")), one(kv("flip", "k", ""))}, // file -> internal
+		{one(kv("setfile", "k", "v")), one(kv("set", "k", "v"))}, // SetConfig on a file key
+		{one(kv("set", "k", "v")), one(kv("flip", "k", ""))},     // internal -> file
 		{one(kv("setfile", "a", "1"), kv("setfile", "b", "2"), kv("setfile", "c", "3")), one(kv("set", "a", ""), kv("setfile", "b", "9"))},
 		{one(kv("setfile", "a", "1"), kv("setfile", "b", "2"), kv("setfile", "c", "3")), one(kv("set", "a", ""), kv("set", "b", ""))},
 		{one(kv("setfile", "a", "1"), kv("setfile", "b", "2")), one(kv("set", "a", "")), one(kv("setfile", "a", "1"))},
